@@ -858,7 +858,7 @@ def replay_step(bname, model, meta):
 def replay_calc_h(bname, model, meta):
     """F10-style witness on the real TDS.calc_h: an event scheduled at the current time is skipped."""
     if 'event-index-only-moved' not in bname:
-        return None
+        return replay_calc_h_general()
     from andes.routines.tds import TDS
     import numpy as np
 
@@ -1099,3 +1099,51 @@ def replay_itm_matrix(obligation=None, model=None, meta=None):
 
 
 replay_itm_matrix.real_system = True
+
+
+def replay_calc_h_general(obligation=None, model=None, meta=None):
+    """native run of the real TDS.calc_h on stub states: early and late event times (with their t -+ 1e-4 guard entries), the moment just
+    after the pre-event guard was consumed, fixed and variable step: the step never passes the next pending entry or tf, is never negative,
+    and the event index moves only past an entry that equals the current time (the listed finding F10)"""
+    from andes.routines.tds import TDS
+    import numpy as np
+
+    class NS:
+        pass
+    n = 0
+    eps = 1e-4
+    for te in (0.5, 2.0, 9.5, 12.0, 15.25, 100.0):
+        times = np.array([te - eps, te, te + eps, te + 5.0])
+        for t_now, idx in ((te - eps, 1), (te - 0.02, 0), (te, 2), (te + eps, 3)):
+            for fixt in (1, 0):
+                n += 1
+                self = NS()
+                self.system = NS()
+                self.system.dae = NS()
+                self.system.dae.t = np.array(t_now)
+                self.system.dae.n = 0
+                self.system.config = NS()
+                self.system.config.freq = 60.0
+                self.system.n_switches = len(times)
+                self.system.switch_times = times
+                self.config = NS()
+                self.config.fixt, self.config.shrinkt, self.config.tstep, self.config.tf, self.config.t0 = fixt, 1, 1 / 30, te + 20.0, 0.0
+                self.niter, self.converged, self.busted, self.chatter = 3, True, False, False
+                self.deltat, self.deltatmin, self.deltatmax = 1 / 30, 1 / 300, 1 / 15
+                self.h = 1 / 30
+                self._switch_idx = idx
+                self.data_csv = None
+                self._calc_h_first = lambda self=self: TDS._calc_h_first(self)
+                h = float(TDS.calc_h(self))
+                what = {'dae.t': t_now, 'switch_times': times.tolist(), '_switch_idx': idx, 'fixt': fixt, 'tstep': 1 / 30}
+                nxt = times[idx] if idx < len(times) else None
+                skipped_equal = nxt is not None and nxt == t_now          # F10: an entry at the current time is passed over
+                if h < 0:
+                    return {'confirmed': True, 'inputs': what, 'observed': 'negative step %r' % h, 'native_cmd': 'TDS.calc_h(stub)'}
+                if self._switch_idx != idx + (1 if skipped_equal else 0):
+                    return {'confirmed': True, 'inputs': what, 'observed': 'event index moved from %d to %d although the next entry (%r) is not the current time' % (idx, self._switch_idx, None if nxt is None else float(nxt)),
+                            'native_cmd': 'TDS.calc_h(stub)'}
+                pending = times[self._switch_idx] if self._switch_idx < len(times) else None
+                if pending is not None and t_now + h > pending + 1e-12:
+                    return {'confirmed': True, 'inputs': what, 'observed': 'step %r from t = %r passes the pending entry %r' % (h, t_now, float(pending)), 'native_cmd': 'TDS.calc_h(stub)'}
+    return {'confirmed': False, 'tried': n}
